@@ -106,7 +106,7 @@ def shard(i, n, args):
     for root in ctx.select_roots(py, i, n):
         if root.cls is None:
             continue
-        for lab, tree, site, alt in all_cases(mm, root, seed, tier, n_random=(1 if tier == "quick" else 25), forced=(tier != "quick" or root.kind in ("RESP", "ALIAS"))):
+        for lab, tree, site, alt in all_cases(mm, root, seed, tier, n_random=(3 if tier == "quick" else 60), forced=(tier != "quick" or root.kind in ("RESP", "ALIAS"))):
             j = to_json(tree)
             if not mm.valid(j, root.t):
                 continue
@@ -165,7 +165,7 @@ def shard(i, n, args):
 
 def main(tier):
     rep = common.Report("C15", tier)
-    nsh = 4 if tier == "quick" else common.NCPU
+    nsh = min(8, common.NCPU) if tier == "quick" else common.NCPU
     results, inconc = common.run_shards("c15", nsh, args=[tier])
     for r in inconc:
         rep.inconc(r)
